@@ -469,6 +469,18 @@ def declared(fd, v):
     k = fd["k"]
     if v is None:
         return ["None accepted by a required field"] if fd.get("req") else []
+    if k in ("ipv4", "net", "host"):
+        # the stored text itself has to meet the inherited string constraints and be in the declared case
+        extra = str_constraints(fd, v)
+        case = eff_sopts(fd)[4]
+        if type(v) is str and case and v != (v.lower() if case == "lower" else v.upper()):
+            extra.append("not in the declared %s case" % case)
+        return extra + _declared_class(fd, v)
+    return _declared_class(fd, v)
+
+
+def _declared_class(fd, v):
+    k = fd["k"]
     if k in ("int", "port"):
         mn = fd.get("min", 1 if k == "port" else None)
         mx = fd.get("max", 65535 if k == "port" else None)
@@ -486,6 +498,9 @@ def declared(fd, v):
         return [] if type(v) is bytes else ["accepted value is not bytes"]
     if k in ("str", "loglevel", "appmode"):
         bad = str_constraints(fd, v)
+        case = eff_sopts(fd)[4]
+        if type(v) is str and case and v != (v.lower() if case == "lower" else v.upper()):
+            bad.append("not in the declared %s case" % case)
         if fd.get("req") and v == "":
             bad.append("empty string accepted by a required field")
         return bad
@@ -571,6 +586,12 @@ def expect_accept(fd, x):
             return True
         if k == "ipv4":
             return own_ipv4(x) is not None
+        if k == "host":
+            if own_ipv4(x) is not None:
+                return bool(fd.get("allow", True))
+            if not x.isascii():
+                return None
+            return bool(re.match(r"[a-zA-Z0-9][a-zA-Z0-9.\-]+\Z", x) or re.match(r"[A-Za-z0-9_!@#$%^()\-'{}.~]{1,15}\Z", x))
         if k == "net":
             r = own_net(x)
             if r == "?":
@@ -775,6 +796,7 @@ def matrix():
               "1.2.3.4/32", "1..3.4", ".1.2.3", "1.2.3.", "a.b.c.d", "1.2.3.1000", "+1.2.3.4", "1.2.3.-4", "1_0.2.3.4", "١.2.3.4",
               "10.20.30.40", "100.200.100.200", "199.99.9.0", "0.0.0.00", "1.2.3.4a", "A.2.3.4", "0x1.2.3.4", "1,2,3,4", "1.2.3.4.",
               "x1.2.3.4x", "001.2.3.4", "10.0.0.10", "010.0.0.1", 16909060, 1.2, b"1.2.3.4", ["1.2.3.4"], True]
+    ipvals += ["::1", "::", "fe80::1", "::ffff:1.2.3.4", "1::", "2001:db8::1", "::1.2.3.4", "16909060", "0x1020304", "0x1.2.3.4", "1.2.3.4%eth0", "fe80::1%1", "[::1]", "::1/128", 16909060, 0, b"\x01\x02\x03\x04", b"1.2.3.4", (1, 2, 3, 4)]
     for f in (fstr("ipv4"), fstr("ipv4", req=True), fstr("ipv4", strip=True), fstr("ipv4", strip="0"), fstr("ipv4", strip="x", case="lower"),
               fstr("ipv4", case="upper"), fstr("ipv4", mn=8), fstr("ipv4", mx=7), fstr("ipv4", mn=7, mx=8), fstr("ipv4", choices=["1.2.3.4", "01.2.3.4"]),
               fstr("ipv4", strip=True, case="lower", req=True)):
@@ -789,6 +811,8 @@ def matrix():
                "010.1.2.3/32", "10.1.2/24", "10.1.2.3/abc", "10.1.2.3/٣", " 10.1.2.0/24", "10.1.2.0/24\n", "255.255.255.255/32",
                "255.255.255.254/31", "255.255.255.255/31", "0.0.0.0/32", "0.0.0.0", "10.1.2.3/999999999999999999999", 5, b"10.0.0.0/8",
                ["10.0.0.0/8"], True]
+    netvals += ["::1", "::", "fe80::1", "::ffff:1.2.3.4", "1::", "2001:db8::1", "::1.2.3.4", "16909060", "0x1020304", "0x1.2.3.4", "1.2.3.4%eth0", "fe80::1%1", "[::1]", "::1/128", 16909060, 0, b"\x01\x02\x03\x04", b"1.2.3.4", (1, 2, 3, 4)] + ["::/0", "::1/128", "fe80::/10", "::ffff:10.0.0.0/104", "2001:db8::/32", "16909060/32", "0x0a000000/8", 167772160,
+                ("10.0.0.0", 8), ("10.0.0.0", "8"), (167772160, 8)]
     for minp, maxp in [(None, None), (0, None), (None, 0), (8, 24), (32, 32), (1, 31), (0, 0), (33, None), (None, -1), (24, 8), (None, 32), (1, None)]:
         for req in (False, True):
             f = fstr("net", req=req, minp=minp, maxp=maxp)
@@ -820,6 +844,17 @@ def matrix():
              "1.2.3.4.5", "ab~", "a/b", "a\\b", "a:b", "a,b", "a+b", "a=b", "a*b", "a&b", "a@b", "a#b", "a$b", "a%b", "a^b", "a(b)", "a'b",
              "a{b}", "a[b]", "a\"b", "a<b", "a|b", "a`b", "a;b", "a?b", "A1", "Z9.example.COM", "localhost", "my-host.example.com",
              "é", "hôte", "host١", 5, b"host", ["host"], True, "a\tb", "ab\x1f", "\x7f"]
+    hvals += ["::1", "fe80::1", "::ffff:1.2.3.4", "1::", "2001:db8::1", "16909060", "0x1020304", 16909060, b"\x01\x02\x03\x04",
+              "Example.COM", "WORKSTATION-7", "DB-PRIMARY", "db-primary", "Db-Primary", "FILESRV01", "filesrv01", "NAS-2", "nas-2",
+              "build-host", "Build-Host", "BUILD-HOST", "  Gateway.Example.org ", "A", "Z9"]
+    for f in (fstr("host", case="upper"), fstr("host", case="upper", strip=True), fstr("host", case="lower"),
+              fstr("host", choices=["DB-PRIMARY", "DB-REPLICA"]), fstr("host", choices=["DB-PRIMARY", "db-primary"]),
+              fstr("host", choices=["db-primary"], case="lower"), fstr("host", choices=["DB-PRIMARY"], case="upper"),
+              fstr("host", regex="^[A-Z][A-Z0-9\\-]+$"), fstr("host", regex="^[A-Z][A-Z0-9\\-]+$", case="upper"),
+              fstr("host", regex="^[a-z][a-z0-9.\\-]+$"), fstr("host", regex="[A-Z]", allow=False),
+              fstr("host", mn=2, mx=10, case="upper", allow=False)):
+        for x in hvals:
+            add(f, x)
     for f in (fstr("host"), fstr("host", allow=False), fstr("host", req=True), fstr("host", strip=True), fstr("host", strip=True, case="lower"),
               fstr("host", case="upper", allow=False), fstr("host", mn=2, mx=15), fstr("host", strip="-.", case=None), fstr("host", strip="x", case="upper")):
         for x in hvals:
@@ -983,10 +1018,17 @@ def rscalar_field(rng):
         f["maxp"] = rng.choice([None, None, 0, 8, 16, 24, 32])
     if k == "host":
         f["allow"] = rng.random() < 0.6
+        if rng.random() < 0.3:
+            f["choices"] = rng.sample(["SRV1", "srv1", "HOST-1.Example.COM", "host-1.example.com", "ab", "AB", "1.2.3.4"], 3)
     return f
 
 
+V6POOL = ["::1", "::", "fe80::1", "::ffff:1.2.3.4", "1::", "2001:db8::1", "16909060", "0x1020304"]
+
+
 def rip(rng):
+    if rng.random() < 0.06:
+        return rng.choice(V6POOL)
     return ".".join(str(rng.choice([0, 1, 9, 10, 99, 100, 199, 254, 255, 256, rng.randint(0, 255)])) for _ in range(rng.choice([4, 4, 4, 4, 3, 5])))
 
 
@@ -1037,8 +1079,11 @@ def rvalue_for(rng, fd, depth=0):
             s = "%d.%d.%d.%d/%s" % (a >> 24, (a >> 16) & 255, (a >> 8) & 255, a & 255, rng.choice([str(p), str(p), "0" + str(p), str(p + rng.choice([0, 1, 32]))]))
         else:
             s = rip(rng) + rng.choice(["", "", "/", "/8", "/32", "/33", "/x", "/-1"])
+    elif k == "host" and fd.get("choices") and rng.random() < 0.6:
+        s = rng.choice(fd["choices"])
     elif k == "host":
-        s = rng.choice([rstr(rng, "abAB01.-_!~ ", 8), rip(rng), "h" * rng.choice([1, 2, 14, 15, 16, 17]), "host-%d.example.com" % rng.randint(0, 99)])
+        s = rng.choice([rstr(rng, "abAB01.-_!~ ", 8), rip(rng), "h" * rng.choice([1, 2, 14, 15, 16, 17]), "host-%d.example.com" % rng.randint(0, 99),
+                        "HOST-%d.Example.COM" % rng.randint(0, 99), "SRV%d" % rng.randint(0, 9)])
     elif k in STRING_KINDS:
         ch = eff_sopts(fd)[3]
         s = rstr(rng)
